@@ -15,7 +15,7 @@ RUST_SHAPE_RE = re.compile(r"-?(0|[1-9][0-9]*)(\.[0-9]+)?")
 
 
 def empty_exponent_digits(s):
-    """Numbers.num_empty_exponent_digits: an exponent indicator, and nothing after its optional sign"""
+    """Numbers.num_empty_exponent_digits (the corner of the former defect D8; counted, not filtered)"""
     m = re.search(r"[eE]", s)
     if not m:
         return False
@@ -23,10 +23,6 @@ def empty_exponent_digits(s):
     if e[:1] in ("+", "-"):
         e = e[1:]
     return e == ""
-
-
-def classify_num(c, iobs, mo):
-    return "empty_exponent_digits" if empty_exponent_digits(unhexs(c)) else None
 
 
 def f64_bits(x):
@@ -128,17 +124,16 @@ def run(ctx):
     def num_spec(c):
         s = unhexs(c)
         return "int=%d float=%d" % (1 if INT_RE.fullmatch(s) else 0, 1 if FLOAT_RE.fullmatch(s) else 0)
-    oracle_rows(ctx, "c10_num_syntax", rows, spec=num_spec, observed=lambda o: o, classify=classify_num,
-                describe=unhexs,
+    oracle_rows(ctx, "c10_num_syntax", rows, spec=num_spec, observed=lambda o: o, describe=unhexs,
                 what="IntValue/FloatValue deserialization accepts or rejects differently from the IntValue/FloatValue grammar")
     fam = ctx.cov["families"]["c10_num_syntax"]
     fam["int_accepted"] = sum(1 for _, i, _ in rows if i.startswith("int=1"))
     fam["float_accepted"] = sum(1 for _, i, _ in rows if i.endswith("float=1"))
     fam["exhaustive_upto_len"] = maxlen
+    fam["empty_exponent_digit_cases"] = sum(1 for c, _, _ in rows if empty_exponent_digits(unhexs(c)))
     for c, i, m in rows:
-        if i.endswith("float=1") and empty_exponent_digits(unhexs(c)):
-            ctx.sample({"family": "c10_num_syntax", "input": unhexs(c), "impl": i, "model": m,
-                        "spec": num_spec(c)}, limit=2)
+        if i.endswith("float=1") and len(c) >= 10:
+            ctx.sample({"family": "c10_num_syntax", "input": unhexs(c), "impl": i, "model": m}, limit=2)
 
     # (c) i32 -> IntValue -> text -> back
     icases = [str(v) for v in gen_i32(ctx, 2000 if ctx.tier == "quick" else 500000)]
